@@ -109,7 +109,7 @@ Section Conv.
         Ok (PArr l)
     | GObject v => Ok v
     | GFunc isnil => if isnil then Ok PUndef else Ok (PFn (bs "gofunc"))
-    | GError msg => Ok (PErr [] msg)   (* &Error{Message: v.Error(), Cause: v}: Name stays empty *)
+    | GError msg => Ok (PErr 0 [] msg)   (* &Error{Message: v.Error(), Cause: v}: Name stays empty *)
     | GDuration z => Ok (PInt z)
     | GReg _ _ | GOther _ => default_case g
     end.
@@ -136,7 +136,7 @@ Fixpoint to_interface (v : pvalue) : goval :=
       | Some g => g
       | None => GObject v
       end
-  | PErr _ _ | PRtErr _ _ | PFn _ => GObject v
+  | PErr _ _ _ | PRtErr _ _ _ _ | PFn _ => GObject v
   end.
 
 (* Go values made of the canonical counterparts of plain uGO values. *)
